@@ -308,6 +308,20 @@ def tip_table(tier="quick"):
                                  oxt=True, q=[1, 0.3, 0.1, 0.2], ter=True,
                                  contact=dict(target=t, dir=[0.1 * ci, 0.05 * gi, 0.02], gap=gap, tip=True))
                         out.append(dict(desc=dict(chains=[a, b], waters=[]), opts=[]))
+    # the same clashes on an input that already carries all hydrogens, on the titration route (hydrogens are
+    # stripped and rebuilt as NEW atoms; a later side-chain turn has to take them along)
+    import copy as _copy
+
+    for x, tips in sorted(build.TIP_ATOMS.items()):
+        for t in range(len(tips)):
+            for gi, gap in enumerate([1.5, 2.0] if tier == "quick" else [1.3, 1.6, 1.9, 2.2]):
+                a = dict(id="A", start=1, seq=["GLY", x, "GLY"], phi=[-70.0] * 3, psi=[140.0, 135.0, 145.0], chi=[chis[gi % 2]] * 3,
+                         hyd="all", oxt=True, q=[1, 0.1, 0.2, 0.3], ter=True)
+                b = dict(id="B", start=11, seq=["GLY", "GLY"], phi=[-65.0] * 2, psi=[150.0, 140.0], chi=[chis[0]] * 2, hyd="all",
+                         oxt=True, q=[1, 0.3, 0.1, 0.2], ter=True,
+                         contact=dict(target=t, dir=[0.1, 0.05 * gi, 0.02], gap=gap, tip=True))
+                out.append(dict(desc=dict(chains=[a, b], waters=[]), opts=[], tit=dict(ph=7.0, pka=[])))
+                out.append(dict(desc=_copy.deepcopy(out[-1]["desc"]), opts=[]))
     # second family: the tip atom itself is LEFT OUT of the input and the other chain sits where it
     # will be rebuilt, under every debump/optimisation mode (a rebuilt atom in a clash is what the
     # first debumping pass reacts to; with --nodebump nothing may move)
